@@ -15,6 +15,7 @@ Section SvalInd.
   Hypothesis Hlist : forall l, Forall P l -> P (SList l).
   Hypothesis Hdict : forall ks vs, Forall P ks -> Forall P vs -> P (SDict ks vs).
   Hypothesis Hlit : forall v, P v -> P (SLit v).
+  Hypothesis Hfut : forall v, P v -> P (SFut v).
   Fixpoint sval_ind' (a : sval) : P a :=
     let fix go (l : list sval) : Forall P l :=
         match l with
@@ -29,6 +30,7 @@ Section SvalInd.
     | SList l => Hlist l (go l)
     | SDict ks vs => Hdict ks vs (go ks) (go vs)
     | SLit v => Hlit v (sval_ind' v)
+    | SFut v => Hfut v (sval_ind' v)
     end.
 End SvalInd.
 
@@ -65,6 +67,7 @@ Proof.
   - change (svals_eqb ks ks0 && svals_eqb vs vs0 = true <-> SDict ks vs = SDict ks0 vs0).
     rewrite andb_true_iff, (svals_eqb_spec ks H), (svals_eqb_spec vs H0).
     split; [intros [E1 E2]; subst; reflexivity | intros E; inversion E; tauto].
+  - rewrite IHa. split; [intros E; subst; reflexivity | intros E; inversion E; reflexivity].
   - rewrite IHa. split; [intros E; subst; reflexivity | intros E; inversion E; reflexivity].
 Qed.
 
@@ -242,6 +245,7 @@ Section Eval.
       + rewrite deps_slist. apply deps_list_nil. intros x Hx. apply Hall. exact Hx.
     - split; reflexivity.
     - split; reflexivity.
+    - split; reflexivity.
   Qed.
 
   (* ---- the quoting of as_dask_dict ---------------------------------------------------------- *)
@@ -334,6 +338,7 @@ Section Eval.
         destruct x; try (rewrite E; reflexivity); rewrite E'; reflexivity.
     - rewrite deps_slist in Hd. rewrite !eval_slist.
       rewrite (eval_list_local c1 c2 l H Hd). reflexivity.
+    - reflexivity.
     - reflexivity.
     - reflexivity.
   Qed.
